@@ -748,7 +748,7 @@ mod proofs {
                         std::mem::forget(ev);
                         assert!(s1.pending_recv.is_empty() && s1.recv_task.is_none(), "recv.recv_headers.one_event_and_reader_woken");
                         assert!(s1.is_pending_accept == (is_server && !informational), "recv.recv_headers.server_stream_offered_to_accept_with_its_headers_queued");
-                        if s1.is_pending_accept && initial {
+                        if s1.is_pending_accept && initial && !counted0 {
                             assert!(lp1 >= ID, "recv.recv_headers.accepted_streams_are_below_last_processed_id");
                         }
                     }
